@@ -47,6 +47,31 @@ CLAIMED = {
         "every term), the 40-line renderer of declaration forms. Name lookup through namespaces/using/shadowing and "
         "template arguments are not yet covered by a spec (only exercised through the stub-header corpus).",
         "DESIGN.md §C06"),
+    "C16": (
+        "TLA+ spec ModuleInit (write_python_table_native's ready-set loop and find_dependency_cycle transcribed "
+        "statement by statement), TLC exhaustive over all library digraphs incl. liveness <>Done; replay of generated "
+        "multi-library modules in every .in order with exact order equality; H-mod hook traces validated against "
+        "ModuleInitTrace; failure-path enumeration over damaged .in files",
+        "TLC shows for every dependency digraph within the bound that the modelled algorithm places each library once, "
+        "bases first modulo reported-and-broken cycle edges, and terminates; the code is bound to the model by "
+        "comparing the generated registration order with the model's for every digraph and command-line order and by "
+        "validating the hook trace of every interrogate_module run.",
+        "Trusted: TLC, the renderer that realises a digraph as cross-library inheritance/typedefs, the Python 3.11 "
+        "import of a sample of acyclic modules against the shims in /verif/shims.",
+        "DESIGN.md §C16"),
+    "C17": (
+        "TLA+ specs IncludeSearch (stated lookup rule vs. find_include's probes, once-only inclusion over path "
+        "spellings) and PathNorm (Filename::standardize/make_absolute/make_canonical over a small file-system model "
+        "with a symlink), TLC exhaustive; replay on real directory trees through interrogate/parse_file and a linked "
+        "path_tool harness (inode identity by stat); H-inc hook traces validated against IncludeTrace",
+        "TLC checks that the modelled probes refine the stated rule for every presence subset, -I/-S order, include "
+        "form and option set, and that path normalisation is idempotent and denotation preserving on every path of "
+        "the model; every case is materialised and the tool's choice, ownership class and once-only behaviour are "
+        "compared with the spec; every include event of every run is validated against the spec's actions.",
+        "Trusted: TLC, os.stat for file identity (spec != stat is a machinery error), the directory-tree renderer. "
+        "'Skipped with a warning' is observed at verbosity >= 2; '//' inside #include text is exercised in -I "
+        "directories and command-line spellings instead (undefined in C).",
+        "DESIGN.md §C17"),
 }
 
 NOT_APPLICABLE = {
